@@ -12,6 +12,7 @@ package main
 
 import (
 	"context"
+	"encoding/json"
 	"errors"
 	"fmt"
 	"net/http"
@@ -23,6 +24,7 @@ import (
 	"sync/atomic"
 	"time"
 
+	"github.com/zeromicro/go-zero/core/fx"
 	"github.com/zeromicro/go-zero/core/logx"
 	"github.com/zeromicro/go-zero/rest/handler"
 	"verifh/hx"
@@ -31,6 +33,8 @@ import (
 type DSpec struct {
 	Mode string `json:"mode"` // none | cancel | deadline | race
 	Pos  int    `json:"pos"`  // number of handler steps executed before D
+	// race: how often the handler goroutine yields between its cancel() and its action
+	Yield int `json:"yield"`
 }
 
 type Case struct {
@@ -42,10 +46,6 @@ type Case struct {
 	H0       [][]any `json:"h0"`
 	Script   [][]any `json:"script"`
 	D        DSpec   `json:"d"`
-	// slot cases (fx)
-	Steps []string `json:"steps"`
-	Bail  [2]int64 `json:"bail"`
-	Fin   []any    `json:"fin"`
 }
 
 type Hdr struct {
@@ -181,7 +181,10 @@ func hdrOut(h http.Header) ([]Hdr, int) {
 
 type pv int64
 
-type hcmd struct{ selfCancel bool }
+type hcmd struct {
+	selfCancel bool
+	yield      int
+}
 
 type hack struct {
 	obs   []any
@@ -250,6 +253,9 @@ func runRest(c Case) (out Out) {
 			cmd := <-gate
 			if cmd.selfCancel {
 				cancelParent()
+				for j := 0; j < cmd.yield; j++ {
+					runtime.Gosched()
+				}
 			}
 			switch a[0].(string) {
 			case "set":
@@ -295,6 +301,9 @@ func runRest(c Case) (out Out) {
 		cmd := <-gate
 		if cmd.selfCancel {
 			cancelParent()
+			for j := 0; j < cmd.yield; j++ {
+				runtime.Gosched()
+			}
 		}
 		acks <- hack{obs: []any{"none"}, ended: true}
 	})
@@ -383,7 +392,7 @@ func runRest(c Case) (out Out) {
 	// the handler has to start before anything is scheduled (it records its goroutine)
 	stepH := func(selfCancel bool) (hack, bool) {
 		select {
-		case gate <- hcmd{selfCancel}:
+		case gate <- hcmd{selfCancel, c.D.Yield}:
 		case <-time.After(5 * time.Second):
 			return hack{}, false
 		}
@@ -501,20 +510,68 @@ func runRest(c Case) (out Out) {
 	return out
 }
 
+func errID(err error) int64 {
+	switch {
+	case err == nil:
+		return 0
+	case errors.Is(err, context.DeadlineExceeded):
+		return -1
+	case errors.Is(err, context.Canceled):
+		return -2
+	}
+	if n, e := strconv.ParseInt(strings.TrimPrefix(err.Error(), "e"), 10, 64); e == nil && strings.HasPrefix(err.Error(), "e") {
+		return n
+	}
+	return -99
+}
+
+func runFx(c SlotCase) SlotOut {
+	return runSlot(c, func(parent context.Context, work func(ctx context.Context) (int64, int64)) (int64, int64) {
+		err := fx.DoWithTimeout(func() error {
+			// fn gets no context from DoWithTimeout: the work can only watch the caller's
+			_, e := work(parent)
+			if e == 0 {
+				return nil
+			}
+			return fmt.Errorf("e%d", e)
+		}, time.Duration(c.DurNs), fx.WithContext(parent))
+		return 0, errID(err)
+	})
+}
+
 func main() {
 	logx.Disable()
-	var cases []Case
-	hx.ReadCases(&cases)
+	var raws []json.RawMessage
+	hx.ReadCases(&raws)
 	w := hx.NewWriter()
 	defer w.Close()
-	for _, c := range cases {
-		switch c.Kind {
-		case "rest":
-			w.Put(runRest(c))
-		case "free":
-			w.Put(runFree(c))
+	for _, raw := range raws {
+		var k struct {
+			ID   int    `json:"id"`
+			Kind string `json:"kind"`
+		}
+		if err := json.Unmarshal(raw, &k); err != nil {
+			hx.Fatal("case: %v", err)
+		}
+		switch k.Kind {
+		case "rest", "free":
+			var c Case
+			if err := json.Unmarshal(raw, &c); err != nil {
+				hx.Fatal("case: %v", err)
+			}
+			if k.Kind == "rest" {
+				w.Put(runRest(c))
+			} else {
+				w.Put(runFree(c))
+			}
+		case "fx":
+			var c SlotCase
+			if err := json.Unmarshal(raw, &c); err != nil {
+				hx.Fatal("case: %v", err)
+			}
+			w.Put(runFx(c))
 		default:
-			w.Put(Out{ID: c.ID, Err: "unknown kind " + c.Kind})
+			w.Put(Out{ID: k.ID, Err: "unknown kind " + k.Kind})
 		}
 	}
 }
